@@ -2,6 +2,7 @@
 from __future__ import annotations
 
 import json
+import os
 
 from .. import core, jschema, obs
 from ..core import enc
@@ -45,6 +46,8 @@ def run(ctx):
             n, dis, _ = core.compare_construct(flat, "jkJK", ctx.tally)
             for v, s, mo, io_ in dis:
                 ctx.disagree("model-vs-code:v%s:as_json" % v, s, mo[:400], io_[:400])
+    if ctx.model_available:
+        lean_schema_tie(ctx, items)
     for ver, s in items:
         o, e = obs.construct(ver, s)
         if o is None:
@@ -65,6 +68,70 @@ def run(ctx):
                     sig, val = refine(schema, d, s, loc)
                     ctx.violation("v%s:%s" % (key, sig), "as_json() output fails the official schema at " + loc,
                                   s, "valid", {"location": loc, "value": val}, replay=rp)
+
+
+def lean_schema_tie(ctx, items):
+    """the Lean schema semantics (frozen transcription) agrees with the exact Python validator on whether the
+    model's / code's JSON validates; thorough: the Python validator agrees with the `jsonschema` package"""
+    sel = [(v, s) for v, s in items if core.sendable(s)][: ctx.n(1500, 20000)]
+    lines, keys = [], []
+    for v, s in sel:
+        for so in "01":
+            for mi in "01":
+                lines.append("S\tschema\t%s\t%s\t%s\t%s" % (v, so, mi, enc(s)))
+                keys.append((v, s, so == "1", mi == "1"))
+    out = core.run_driver(lines)
+    for (v, s, so, mi), mo in zip(keys, out):
+        o, _ = obs.construct(v, s)
+        if o is None or not mo.startswith("ok"):
+            if (o is None) != (not mo.startswith("ok")):
+                ctx.disagree("lean-schema-vs-validator:acceptance", s, mo[:100], "accepted" if o is not None else "rejected")
+            continue
+        key = v if v != "3" else s[5:8]
+        d = json.loads(json.dumps(o.as_json(sort=so, minimal=mi)))
+        py_valid = not jschema.validate(jschema.load(SCHEMA.get(key, "3.1")), d)
+        lean_valid = mo.rstrip("\t") == "ok"
+        if py_valid != lean_valid:
+            ctx.disagree("lean-schema-vs-validator:v%s" % key, s, mo[:200], "valid" if py_valid else "invalid")
+    ctx.extra["lean_schema_evaluations"] = len(lines)
+    if ctx.tier == "thorough":
+        cross_check_jsonschema(ctx, sel[:3000])
+
+
+def cross_check_jsonschema(ctx, sel):
+    """second opinion on the validator itself: the `jsonschema` package of the tooling venv (v2 / v3 only: for v4 its float
+    multipleOf differs from exact arithmetic, and v4 never validates anyway)"""
+    import subprocess, tempfile
+    docs = []
+    for v, s in sel:
+        if v == "4":
+            continue
+        o, _ = obs.construct(v, s)
+        if o is None:
+            continue
+        key = v if v != "3" else s[5:8]
+        d = json.loads(json.dumps(o.as_json()))
+        docs.append([SCHEMA[key], d, not jschema.validate(jschema.load(SCHEMA[key]), d)])
+    with tempfile.NamedTemporaryFile("w", suffix=".json", delete=False) as f:
+        json.dump(docs, f)
+        path = f.name
+    code = ("import json,sys,jsonschema\nimport os\ndocs=json.load(open(sys.argv[1]))\nbad=[]\n"
+            "for i,(ver,d,mine) in enumerate(docs):\n"
+            "    sch=json.load(open(os.path.join(sys.argv[2],'cvss-v%s.json'%ver)))\n"
+            "    try:\n        jsonschema.validate(d,sch); ok=True\n    except jsonschema.ValidationError: ok=False\n"
+            "    if ok!=mine: bad.append(i)\nprint(json.dumps(bad))\n")
+    try:
+        p = subprocess.run(["python3-vt", "-c", code, path, jschema.SCHEMA_DIR], stdout=subprocess.PIPE, stderr=subprocess.PIPE, timeout=600)
+        bad = json.loads(p.stdout.decode().strip().splitlines()[-1]) if p.returncode == 0 else None
+    except Exception as e:  # noqa
+        bad = None
+        ctx.notes.append("jsonschema cross-check not run: %s" % e)
+    finally:
+        os.remove(path)
+    if bad:
+        for i in bad[:5]:
+            ctx.disagree("validator-vs-jsonschema-package", docs[i][1].get("vectorString"), "mine=%s" % docs[i][2], "jsonschema=%s" % (not docs[i][2]))
+    ctx.extra["jsonschema_package_cross_checked"] = len(docs) if bad is not None else 0
 
 
 def refine(schema, d, s, loc):
